@@ -64,6 +64,9 @@ type Cfg struct {
 	// QueueCtx: context of every queue (index; 0 = the first context, k > 0 =
 	// the k-th sibling made with InitWithExistingPID). nil = all in context 0.
 	QueueCtx []int `json:"queue_ctx,omitempty"`
+	// D2HCycles > 0: the driver's set-up delay of device-to-host copies differs from that of host-to-device copies
+	// (Cycles), as on the shipped timing platforms (500 / 300)
+	D2HCycles int `json:"d2h_cycles,omitempty"`
 	// SlowMem > 0: the memory below the DMA engine takes one transaction per SlowMem cycles (a memory clocked below
 	// the engine, or busy with other traffic), so the engine's 64-entry outgoing buffer fills up and Send is refused
 	SlowMem  int  `json:"slow_memory_every,omitempty"`
@@ -137,8 +140,12 @@ func Body(c Cfg) explore.Body {
 		}
 
 		pt := vm.NewPageTable(bLog2Page)
+		d2hCycles := c.Cycles
+		if c.D2HCycles > 0 {
+			d2hCycles = c.D2HCycles
+		}
 		drv := driver.MakeBuilder().WithEngine(w.Engine).WithFreq(w.Freq).WithLog2PageSize(bLog2Page).
-			WithPageTable(pt).WithH2DCycles(c.Cycles).WithD2HCycles(c.Cycles).Build("Driver")
+			WithPageTable(pt).WithH2DCycles(c.Cycles).WithD2HCycles(d2hCycles).Build("Driver")
 		conn := directconnection.MakeBuilder().WithEngine(w.Engine).WithFreq(w.Freq).Build("Conn")
 		gpuPort := drv.GetPortByName("GPU")
 		conn.PlugIn(gpuPort)
@@ -766,6 +773,12 @@ func Scenarios(thorough bool) []harness.Scenario {
 		Jobs: []Job{{Queue: 0, H2D: true, Off: BPage - 20, Len: 40}, {Queue: 0, Kernel: true, Off: BPage - 8, Len: 16}, {Queue: 0, Off: BPage - 20, Len: 40}}}, bound)
 	add(Cfg{Name: "b/3gpu/kernel-writes-all-three-memories-then-d2h/4KiB-pages", NGPU: 3, Pages: 3, MaxReq: 4, Log2Page: 12,
 		Jobs: []Job{{Queue: 0, Kernel: true, Off: 4096 - 4, Len: 4096 + 8}, {Queue: 0, Off: 4096 - 4, Len: 4096 + 8}}}, 1)
+	// different set-up delays for the two directions and two queues: a host-to-device copy is waiting out its (longer)
+	// delay when a device-to-host copy of another queue becomes ready first (seed C11-9)
+	add(Cfg{Name: "b/1gpu/two-queues/h2d-delay9-d2h-delay4", NGPU: 1, Pages: 1, MaxReq: 4, Cycles: 9, D2HCycles: 4,
+		Jobs: []Job{{Queue: 0, H2D: true, Off: 0, Len: 70}, {Queue: 1, Off: 256, Len: 66}, {Queue: 0, Off: 0, Len: 70}, {Queue: 1, H2D: true, Off: 300, Len: 10}}}, bound)
+	add(Cfg{Name: "b/2gpu/two-queues/h2d-delay5-d2h-delay12/page-crossing", NGPU: 2, Pages: 2, MaxReq: 2, Cycles: 5, D2HCycles: 12,
+		Jobs: []Job{{Queue: 0, Off: BPage - 10, Len: 20}, {Queue: 1, H2D: true, Off: 100, Len: 64}, {Queue: 0, H2D: true, Off: BPage - 4, Len: 8}, {Queue: 1, Off: 90, Len: 80}}}, bound)
 	// sustained back-pressure below the DMA engine: copies of more transactions than the engine's outgoing buffer
 	// holds (64) against a memory that takes one transaction per 4 cycles; two queues keep several requests in flight
 	add(Cfg{Name: "b/1gpu/slow-memory4/8KiB-page", NGPU: 1, Pages: 1, MaxReq: 4, Log2Page: 13, SlowMem: 4,
